@@ -72,6 +72,8 @@ func Judge(prop string, p *sdl.Program, cfg map[string]string, runs []*Obs) []Vi
 		})
 	case "C13":
 		perRun(func(o *Obs) []Violation { return w.CheckRunners(o) })
+	case "C14":
+		perRun(func(o *Obs) []Violation { return w.CheckClose(o) })
 	case "C10":
 		var ff []*Obs
 		var idx []int
